@@ -37,6 +37,7 @@ def run(ctx):
     # 3. the code, sequential: the same history of real transactions (create, destroy, re-create,
     #    empty-touch, storage churn), increments, drains, merges and extractions applied to a
     #    ParallelState and to a revm State; results, transitions, readable values, bundles compared
+    se.lifecycle(ctx, "C10", quick)
     h = ctx.vh("statehist", {"max_runs": 1500 if quick else 60000, "seed": ctx.seed}, timeout=3000)
     ctx.evaluations += h["runs"]
     ctx.distinct += h["distinct"]
